@@ -134,10 +134,6 @@ if __name__ == '__main__':
     import registry
     import json
     names = sys.argv[1:]
-    us = []
-    for p in registry.PROPS.values():
-        for k in p.get('kx', []):
-            if (not names or k['name'] in names) and k not in us:
-                us.append(k)
+    us = [k for n, k in registry.KX.items() if not names or n in names]
     for r in run_units(us):
         print(json.dumps({k: v for k, v in r.items()}, indent=1)[:3000])
